@@ -371,6 +371,27 @@ def r3_replace_protocol(rep, src):
         rep.fail('C19.R3', f.site, 'rename after the file is closed',
                  'the temporary is not renamed onto the target after the with block has closed it (rename inside the block, wrong arguments or missing)',
                  where=f.where)
+    # the target itself is touched by nothing but that rename: any other writer of the target path (unlink before the rename, open
+    # for writing, truncate ...) destroys the old content before the new one is in place
+    others = []
+    for c in calls_in(f.node):
+        nm = norm(c.func)
+        args = list(c.args) + [k.value for k in c.keywords]
+        on_target = any(isinstance(x, ast.Name) and x.id == local for a_ in args for x in ast.walk(a_)) \
+            and not any(isinstance(x, ast.Name) and x.id == tmp for a_ in args[:1] for x in ast.walk(a_))
+        if not on_target:
+            continue
+        if nm in WRITE_CALLS and not (ren and c is ren[0][1]):
+            others.append(c)
+        if nm == 'open':
+            mode = c.args[1] if len(c.args) > 1 else next((k.value for k in c.keywords if k.arg == 'mode'), None)
+            if mode is not None and not (isinstance(mode, ast.Constant) and set(mode.value) <= set('rbtU')) and norm(c.args[0]) == local:
+                others.append(c)
+    if others:
+        rep.fail('C19.R3', f.site, 'the target is only replaced by the rename', 'the target path is also written by %s: if the following step fails the old local file is '
+                 'already gone or damaged' % norm(others[0])[:60], where='%s:%d' % (f.module.relpath, others[0].lineno))
+    else:
+        rep.ok('C19.R3', f.site, 'the target is only replaced by the rename', 'no other writer of the target path in replace_file')
     # all writes of lines happen before the rename; nothing else between
     unl = [c for s in t.finalbody for c in ast.walk(s) if (_is_call(c, 'os.unlink') or _is_call(c, 'os.remove')) and norm(c.args[0]) == tmp]
     if unl:
@@ -624,6 +645,49 @@ def r7_history_order(rep, src):
         rep.fail('C19.R7', f.site, 'chain starts at the local version', 'no comparison of a history hash with the local hash', where=f.where)
 
 
+def r8_malformed_entries(rep, src):
+    """entries of the History / Patches fields: an entry that does not have the three columns makes the index unusable (full
+    download); it is never silently dropped -- a gap in the patch chain would end in "patch failed" instead of the fallback.
+    Decided on the paths of every loop over <field>.splitlines() in update_file and its local helpers."""
+    from .. import paths
+    f = src.func(SITE)
+    closures = _closure_returning_download(f)
+    loops = [n for n in ast.walk(f.node) if isinstance(n, ast.For) and isinstance(n.iter, ast.Call) and isinstance(n.iter.func, ast.Attribute)
+             and n.iter.func.attr == 'splitlines']
+    if not loops:
+        raise AnalysisError('%s: no loop over the lines of an index field' % f.site)
+    n = 0
+    for lp in loops:
+        ps = paths.Enumerator(paths.Folder()).run(lp.body, [paths.Path()])
+        rep.analysed['paths'] += len(ps)
+        what = 'entries of `%s`' % norm(lp.iter)[:40]
+        bad = None
+        seen_len = False
+        for p_ in ps:
+            wrong = None       # does this path carry "the entry does not have 3 columns"?
+            for t_, pol in p_.conds:
+                if isinstance(t_, ast.Compare) and len(t_.ops) == 1 and isinstance(t_.left, ast.Call) and norm(t_.left.func) == 'len' \
+                        and isinstance(t_.comparators[0], ast.Constant) and t_.comparators[0].value == 3 and isinstance(t_.ops[0], (ast.Eq, ast.NotEq)):
+                    seen_len = True
+                    wrong = pol if isinstance(t_.ops[0], ast.NotEq) else not pol
+            if not wrong:
+                continue
+            oc = p_.outcome
+            ok = oc is not None and (oc[0] == 'raise' or (oc[0] == 'return' and oc[1] is not None and (
+                _is_download(oc[1], f) or (isinstance(oc[1], ast.Call) and isinstance(oc[1].func, ast.Name) and oc[1].func.id in closures))))
+            if not ok:
+                bad = 'an entry without exactly three columns is %s' % ('skipped' if oc is None or oc[0] == 'continue' else 'answered with ' + norm(oc[1])[:40] if oc[1] is not None else oc[0])
+        n += 1
+        if bad:
+            rep.fail('C19.R8', f.site, what, bad + ' instead of sending the update to a full download: a malformed History entry leaves a gap in the patch chain '
+                     '(ValueError "patch failed" instead of the fallback)', where='%s:%d' % (f.module.relpath, lp.lineno))
+        elif not seen_len:
+            rep.fail('C19.R8', f.site, what, 'the number of columns of an entry is not checked before it is unpacked', where='%s:%d' % (f.module.relpath, lp.lineno))
+        else:
+            rep.ok('C19.R8', f.site, what, 'wrong column count → full download')
+    return n
+
+
 def check(src, rep, tier):
     rep.explanation = ('C19: CFG rules on update_file: the result-hash comparison (raise on mismatch) dominates the single replace_file '
                        'call and the hash is taken after the last patch; the per-patch hash comparison dominates patch_lines on the same '
@@ -639,6 +703,7 @@ def check(src, rep, tier):
     rep.need('C19.R5', 2)
     rep.need('C19.R6', 1)
     rep.need('C19.R7', 2)
+    rep.need('C19.R8', 2)
     g = rep.guard('C19.R1', r1_verify_before_replace, src)
     rep.guard('C19.R2', r2_single_writer, src)
     rep.guard('C19.R3', r3_replace_protocol, src)
@@ -647,3 +712,4 @@ def check(src, rep, tier):
     rep.guard('C19.R5', r5_hash_backends, src)
     rep.guard('C19.R6', r6_temp_download, src)
     rep.guard('C19.R7', r7_history_order, src)
+    rep.guard('C19.R8', r8_malformed_entries, src)
